@@ -608,6 +608,42 @@ mut('C16-dhtv-passes-start-at-one', 'C16', PA, "            for iteration in ran
 neu('N19-dhtv-passes-counted-from-one', ALLP, [(PA, "            for iteration in range(iterations):", "            for iteration in range(1, iterations + 1):", False)])
 mut('C09-cacg-eig-on-request', 'C09', D + 'complex_angular_central_gaussian.py', "            eigenvals, eigenvecs = np.linalg.eigh(covariance)\n", "            eigenvals, eigenvecs = np.linalg.eig(covariance) if eigenvalue_floor else np.linalg.eigh(covariance)\n", expect='eig-on-regular-path', props=['C09'])
 mut('C13-reference-channel-floor-default-zero', 'C13', 'pb_bss/extraction/beamformer.py', "        noise_psd_matrix,\n        eps=None,\n):\n    if w_mat.ndim != 3:", "        noise_psd_matrix,\n        eps=0.,\n):\n    if w_mat.ndim != 3:", expect='default-floor', props=['C11', 'C13'])
+# ---- eighth pass (tenth campaign: axes written relative to the rank, loops written blockwise / shifted / counted down): neutral spellings and their broken twins
+SOLVE = 'pb_bss/math/solve.py'
+MM = 'pb_bss/extraction/mask_module.py'
+neu('N20-stable-solve-blockwise', ALLP, [(SOLVE,
+    "        for i in range(working_shape_A[0]):\n            # lstsq is much slower, use it only when necessary\n            try:\n                C[i] = np.linalg.solve(A[i], B[i])\n            except np.linalg.LinAlgError:\n                C[i], *_ = np.linalg.lstsq(A[i], B[i])\n",
+    "        total = working_shape_A[0]\n        block = 8\n        for b in range(-(-total // block)):\n            for i in range(b * block, min((b + 1) * block, total)):\n                try:\n                    C[i] = np.linalg.solve(A[i], B[i])\n                except np.linalg.LinAlgError:\n                    C[i], *_ = np.linalg.lstsq(A[i], B[i])\n", False)])
+mut('C13-stable-solve-blockwise-last-block-dropped', 'C13', SOLVE,
+    "        for i in range(working_shape_A[0]):\n            # lstsq is much slower, use it only when necessary\n            try:\n                C[i] = np.linalg.solve(A[i], B[i])\n            except np.linalg.LinAlgError:\n                C[i], *_ = np.linalg.lstsq(A[i], B[i])\n",
+    "        total = working_shape_A[0]\n        block = 8\n        for b in range(total // block):\n            for i in range(b * block, min((b + 1) * block, total)):\n                try:\n                    C[i] = np.linalg.solve(A[i], B[i])\n                except np.linalg.LinAlgError:\n                    C[i], *_ = np.linalg.lstsq(A[i], B[i])\n",
+    expect=None, props=['C13', 'C11'], note='total // block blocks: the matrices of the last, partial block are never solved')
+neu('N20-greedy-composition-shifted-index', ALLP, [(PA, "        for f in range(1, F):\n            mapping[:, f] = mapping[mapping[:, f - 1], f]\n",
+                                                    "        for previous_f in range(F - 1):\n            f = previous_f + 1\n            mapping[:, f] = mapping[mapping[:, previous_f], f]\n", False)])
+mut('C16-greedy-composition-shifted-index-reads-itself', 'C16', PA, "        for f in range(1, F):\n            mapping[:, f] = mapping[mapping[:, f - 1], f]\n",
+    "        for previous_f in range(F - 1):\n            f = previous_f + 1\n            mapping[:, f] = mapping[mapping[:, f], previous_f]\n", expect=None, props=['C16', 'C14'],
+    note='the two bins exchanged: column f-1 is gathered by column f')
+neu('N20-complex-mask-sum-via-front-axis', ALLP, [(MM, "    observed_signal = np.sum(signal, axis=source_axis, keepdims=True)\n    return signal / observed_signal",
+                                                  "    observed_signal = np.swapaxes(\n        np.sum(np.swapaxes(signal, source_axis, 0), axis=0, keepdims=True),\n        0, source_axis,\n    )\n    return signal / observed_signal", False)])
+mut('C18-complex-mask-sum-via-front-axis-not-moved-back', 'C18', MM, "    observed_signal = np.sum(signal, axis=source_axis, keepdims=True)\n    return signal / observed_signal",
+    "    observed_signal = np.sum(np.swapaxes(signal, source_axis, 0), axis=0, keepdims=True)\n    return signal / observed_signal", expect=None, props=['C18'],
+    note='the summed axis stays in front: the quotient broadcasts the sum against the wrong axis')
+neu('N20-wiener-mask-explicit-broadcast', ALLP, [(MM, "    mask /= mask.sum(source_axis, keepdims=True) + eps\n\n    if sensor_axis is not None and not keepdims:",
+                                                 "    normalizer = mask.sum(source_axis, keepdims=True) + eps\n    mask /= np.broadcast_to(normalizer, np.shape(mask))\n\n    if sensor_axis is not None and not keepdims:", False)])
+mut('C18-wiener-mask-explicit-broadcast-of-the-sensor-sum', 'C18', MM, "    mask /= mask.sum(source_axis, keepdims=True) + eps\n\n    if sensor_axis is not None and not keepdims:",
+    "    normalizer = mask.sum(-1, keepdims=True) + eps\n    mask /= np.broadcast_to(normalizer, np.shape(mask))\n\n    if sensor_axis is not None and not keepdims:", expect=None, props=['C18'],
+    note='the explicit broadcast hides nothing: the sum runs over a fixed axis instead of source_axis')
+neu('N20-unit-norm-axis-counted-from-the-front', ALLP, [(D + 'utils.py', "    norm = np.linalg.norm(signal, ord=ord, axis=axis, keepdims=True)",
+                                                        "    ndim = np.ndim(signal)\n    if isinstance(axis, int) and -ndim <= axis < 0:\n        axis = axis + ndim\n    norm = np.linalg.norm(signal, ord=ord, axis=axis, keepdims=True)", False)])
+mut('C04-unit-norm-axis-shifted-by-one', 'C04', D + 'utils.py', "    norm = np.linalg.norm(signal, ord=ord, axis=axis, keepdims=True)",
+    "    ndim = np.ndim(signal)\n    if isinstance(axis, int) and -ndim <= axis < 0:\n        axis = axis + ndim - 1\n    norm = np.linalg.norm(signal, ord=ord, axis=axis, keepdims=True)", expect=None, props=['C04', 'C05'],
+    note='the axis counted from the front is off by one: the norm is taken over the neighbouring axis')
+neu('N20-cwmm-em-loop-counted-from-one', ALLP, [(D + 'cwmm.py', "        for iteration in range(iterations):", "        for iteration in range(1, iterations + 1):", False)])
+neu('N20-cwmm-em-loop-reversed-counter', ALLP, [(D + 'cwmm.py', "        for iteration in range(iterations):", "        for iteration in reversed(range(iterations)):", False)])
+mut('C08-cwmm-em-loop-counted-from-one-short', 'C08', D + 'cwmm.py', "        for iteration in range(iterations):", "        for iteration in range(1, iterations):", expect='range', props=['C08'])
+neu('N20-bingham-fit-flat-index-unravelled', ALLP, [(D + 'complex_bingham.py', "        for index in np.ndindex(scatter_eigenvalues.shape[:-1]):",
+                                                    "        independent_shape = scatter_eigenvalues.shape[:-1]\n        for flat_index in range(int(np.prod(independent_shape))):\n            index = np.unravel_index(flat_index, independent_shape)", False)],
+    note='(int(np.prod(...)) is not the form the rule reads: C03 / C06 may stay undecided)')
 # ---- whole refactorings written by independent sub-agents (14-20 behaviour-preserving edits each, verified bit-identical on
 #      600-900 inputs per patch): every check must stay silent on each of them
 for r, what in (('R1', 'mixture_model_utils / cacgmm / cACG'), ('R2', 'cwmm / cbmm / Watson / Bingham / distribution.utils'), ('R3', 'gmm / gaussian / vMF / gcacgmm / vmfcacgmm'),
@@ -653,5 +689,15 @@ for r, what in (('R81', 'mixture_model_utils / cacgmm / cACG'), ('R82', 'cwmm / 
 for r, what in (('R91', 'mixture_model_utils / cacgmm / cACG'), ('R92', 'cwmm / cbmm / Watson / Bingham / distribution.utils'), ('R93', 'gmm / gaussian / vMF / gcacgmm / vmfcacgmm'),
                 ('R94', 'beamformer / beamformer_wrapper / math.solve'), ('R95', 'permutation_alignment / initializers'), ('R96', 'mask_module / sxr_module / si_sdr / utils')):
     C.append(dict(id=f'N18-{r}-modern', kind='neutral', properties=ALLP, note=f'independent modernisation of {what}', patch=f'neutral_patches/{r}.patch', edits=[]))
+# ---- tenth campaign: every axis written in another way (x.ndim - k, -k % x.ndim, moveaxis / swapaxes / transpose / reshape / expand_dims / np.take for one another, einsum letters
+#      renamed), loops written blockwise, shifted, counted down, over flat indices; axis orders built at run time
+for r, what in (('R101', 'mixture_model_utils / cacgmm / cACG'), ('R102', 'cwmm / cbmm / Watson / Bingham / distribution.utils'), ('R103', 'gmm / gaussian / vMF / gcacgmm / vmfcacgmm'),
+                ('R104', 'beamformer / beamformer_wrapper / math.solve'), ('R105', 'permutation_alignment / initializers'), ('R106', 'mask_module / sxr_module / si_sdr / utils')):
+    # checks that end INCONCLUSIVE (exit 2, no VIOLATION line): shapes / axis orders assembled with list methods at run time, computed index tuples, blockwise concatenation
+    # (DESIGN 10.5, tenth campaign)
+    undecided = {'R101': ['C08', 'C14'], 'R102': ['C01', 'C09'], 'R103': ['C01', 'C02', 'C03', 'C04', 'C05', 'C07', 'C08', 'C09'], 'R104': ['C10', 'C12', 'C13'],
+                 'R106': ['C18', 'C19']}.get(r, [])
+    C.append(dict(id=f'N20-{r}-axes', kind='neutral', properties=ALLP, note=f'independent rewrite of the axis handling of {what}', patch=f'neutral_patches/{r}.patch', edits=[],
+                  inconclusive_ok=undecided))
 out.write_text(json.dumps(C, indent=1))
 print(len(C), 'variants ->', out)
